@@ -84,7 +84,7 @@ const (
 var methodNames = []string{"/svc/Plain", "/svc/Bind", "/svc/Bound", "/svc/Unbind", "/svc/NoAff", "/svc/X0", "/svc/X1", "/svc/X2"}
 
 // Locator variants.
-var locators = []string{"name", "nested.name", "names", "items.name", "nosuch.field", "num", ""}
+var locators = []string{"name", "nested.name", "names", "items.name", "nosuch.field", "num", "", ".name", "name.", "nested..name", "items.", "nested.name.x", "."}
 
 const nGoodLocators = 4
 
